@@ -390,6 +390,33 @@ def search(seed, tier):
     return found
 
 
+def runtime_checks():
+    """exact observations, every run: the last output unit selected as -1 (Python indexing) on a shared multi-output network"""
+    import torch
+    from neurodiffeq.conditions import DirichletBVP2D, IBVP1D
+    from neurodiffeq.networks import FCNN
+    bad = []
+    torch.manual_seed(9)
+    f = lambda z: torch.sin(z) + 0.5
+    zero = lambda z: z * 0
+    n = 4
+    xs, ys = torch.rand(n, 1, requires_grad=True), torch.rand(n, 1, requires_grad=True)
+    for name, mk in (('DirichletBVP2D', lambda: DirichletBVP2D(0., f, 1., f, 0., zero, 1., zero)),
+                     ('IBVP1D', lambda: IBVP1D(0., 1., 0., f, x_min_val=zero, x_max_prime=zero))):
+        for n_out in (2, 3):
+            net = FCNN(2, n_out, hidden_units=(5,))
+            a, b = mk(), mk()
+            a.ith_unit, b.ith_unit = -1, n_out - 1
+            try:
+                ua, ub = a.enforce(net, xs, ys), b.enforce(net, xs, ys)
+                if tuple(ua.shape) != (n, 1) or not torch.equal(ua, ub):
+                    bad.append(dict(case='output unit -1 on a shared network', condition=name, outputs=n_out, shape=list(ua.shape),
+                                    violated='does not select the last output unit'))
+            except Exception as e:
+                bad.append(dict(case='output unit -1 on a shared network', condition=name, outputs=n_out, error=f'{type(e).__name__}: {e}'))
+    return bad
+
+
 def check(tier, seed):
     from ..calcprop import check_calc
     return check_calc(sys.modules[__name__], tier, seed)
